@@ -1,0 +1,42 @@
+// Licensed to the Apache Software Foundation (ASF) under one
+// or more contributor license agreements.  See the NOTICE file
+// distributed with this work for additional information
+// regarding copyright ownership.  The ASF licenses this file
+// to you under the Apache License, Version 2.0 (the
+// "License"); you may not use this file except in compliance
+// with the License.  You may obtain a copy of the License at
+//
+//   http://www.apache.org/licenses/LICENSE-2.0
+//
+// Unless required by applicable law or agreed to in writing,
+// software distributed under the License is distributed on an
+// "AS IS" BASIS, WITHOUT WARRANTIES OR CONDITIONS OF ANY
+// KIND, either express or implied.  See the License for the
+// specific language governing permissions and limitations
+// under the License.
+
+//! Scheduling points for deterministic simulation (only compiled with
+//! `--cfg datafusion_verif`; absent from normal builds).
+//!
+//! A simulator that owns thread scheduling installs a hook with
+//! [`set_sync_point_hook`]; code that synchronises through lock-free atomics
+//! calls [`sync_point`] in front of each atomic operation so that the
+//! simulator can preempt there. Without a hook a call is a load and a branch.
+
+use std::sync::OnceLock;
+
+static HOOK: OnceLock<fn(&'static str)> = OnceLock::new();
+
+/// Install the process-wide scheduling-point hook. Returns `false` if one was
+/// already installed.
+pub fn set_sync_point_hook(hook: fn(&'static str)) -> bool {
+    HOOK.set(hook).is_ok()
+}
+
+/// A point at which a simulator may switch to another thread.
+#[inline]
+pub fn sync_point(site: &'static str) {
+    if let Some(hook) = HOOK.get() {
+        hook(site)
+    }
+}
